@@ -233,10 +233,20 @@ func firstCommon(a, b []string) (string, bool) {
 // memConn is one end of a buffered in-memory duplex (net.Pipe would deadlock:
 // both sides write their version line first).
 type memHalf struct {
-	mu     sync.Mutex
-	cond   *sync.Cond
-	buf    []byte
-	closed bool
+	mu      sync.Mutex
+	cond    *sync.Cond
+	buf     []byte
+	closed  bool
+	moved   int64 // bytes written so far
+	waiting int   // readers parked on an empty buffer
+}
+
+// state reports the bytes written so far and whether a reader is parked on
+// an empty, open buffer.
+func (h *memHalf) state() (moved int64, parked bool) {
+	h.mu.Lock()
+	defer h.mu.Unlock()
+	return h.moved, h.waiting > 0 && len(h.buf) == 0 && !h.closed
 }
 
 func newMemHalf() *memHalf { h := &memHalf{}; h.cond = sync.NewCond(&h.mu); return h }
@@ -252,7 +262,9 @@ func (c *memConn) Read(p []byte) (int, error) {
 	c.r.mu.Lock()
 	defer c.r.mu.Unlock()
 	for len(c.r.buf) == 0 && !c.r.closed {
+		c.r.waiting++
 		c.r.cond.Wait()
+		c.r.waiting--
 	}
 	if len(c.r.buf) == 0 {
 		return 0, io.EOF
@@ -269,6 +281,7 @@ func (c *memConn) Write(p []byte) (int, error) {
 		return 0, io.ErrClosedPipe
 	}
 	c.w.buf = append(c.w.buf, p...)
+	c.w.moved += int64(len(p))
 	c.w.cond.Broadcast()
 	return len(p), nil
 }
@@ -456,6 +469,9 @@ func TestC28(t *testing.T) {
 		}
 	}
 	c.Exhaustive("each of the 8 negotiated categories x {orders differ, disjoint, client empty, server empty} x {non-AEAD, AEAD ciphers}", nDir)
+
+	// ---- guessed first kex packets from an independent peer ------------------------------
+	c28GuessPart(c, t)
 
 	// ---- end-to-end handshakes ---------------------------------------------------------
 	signers := map[string]ssh.Signer{}
